@@ -3,7 +3,7 @@ import MythVerif.Proofs.WsQueueTsoTac
 namespace MythVerif.WsqTso
 open MythVerif.Wsq
 
-set_option maxHeartbeats 1000000 in
+set_option maxHeartbeats 4000000 in
 theorem t_tp2 (s s' : St) (p : Pid) (e b) : Inv s → s.tpc p = .tp2 e b → stepT s p = some s' → Inv s' := by
   intro h heq hs
   have hb := h.tbufE p (by simp [heq, mayBuf])
@@ -17,7 +17,7 @@ theorem pu2_viewBase (buf : List Sto) (ptr : Int → Option Elem) (e : Elem) (t 
     (h : Pu2Shape buf ptr e t) : viewBase buf base = base := by
   rcases h with ⟨h1, _⟩ | h1 <;> simp [h1, viewBase]
 
-set_option maxHeartbeats 1000000 in
+set_option maxHeartbeats 4000000 in
 theorem t_tp3 (s s' : St) (p : Pid) (e) : Inv s → s.tpc p = .tp3 e → stepT s p = some s' → Inv s' := by
   intro h heq hs
   have hsh := h.tp3 p e heq
@@ -44,7 +44,7 @@ theorem t_tp3 (s s' : St) (p : Pid) (e) : Inv s → s.tpc p = .tp3 e → stepT s
       exact htp4 q ok hq
   tso_rest
 
-set_option maxHeartbeats 1000000 in
+set_option maxHeartbeats 4000000 in
 theorem t_tp4 (s s' : St) (p : Pid) (ok) : Inv s → s.tpc p = .tp4 ok → stepT s p = some s' → Inv s' := by
   intro h heq hs
   have hcfg := h.cfg
